@@ -8,6 +8,16 @@ import numpy as np
 from rv import gen, oracle
 
 
+def _seed(rng):
+    """sampler seed: boundary values (0 is falsy!, 1, numpy's maximum 2**32 - 1) mixed with random ones"""
+    r = rng.random()
+    if r < 0.2:
+        return 0
+    if r < 0.27:
+        return rng.choice([1, 2 ** 32 - 1])
+    return rng.randrange(2 ** 31)
+
+
 def sep_cpt(rng, r, q, zeros=True):
     """r x q table whose columns are kept >= 0.3 apart in total variation where that is possible
     (best effort: 12 draws per column, the most separated one is kept)."""
@@ -108,7 +118,7 @@ def gen_sim_variant(rng, bn, nodes, J, tier):
     card = bn["card"]
     n = rng.choice([1, 2, 17, 17, 150] if tier == "quick" else [1, 2, 17, 150, 600])
     for _try in range(8):
-        var = {"n": n, "seed": rng.randrange(2 ** 31), "include_latents": rng.random() < 0.4}
+        var = {"n": n, "seed": _seed(rng), "include_latents": rng.random() < 0.4}
         pool = list(nodes)
         rng.shuffle(pool)
         kinds = rng.choice([[], ["do"], ["evidence"], ["vev"], ["vint"], ["do", "evidence"], ["do", "vev"],
@@ -157,7 +167,7 @@ def gen_sim_variant(rng, bn, nodes, J, tier):
             var["accept_prob"] = acc
             return var
         n = min(n, 17)
-    return {"n": n, "seed": rng.randrange(2 ** 31), "include_latents": False, "do": {}, "evidence": {}, "vev": [],
+    return {"n": n, "seed": _seed(rng), "include_latents": False, "do": {}, "evidence": {}, "vev": [],
             "vint": [], "partial": None, "missing": None}
 
 
@@ -177,7 +187,7 @@ def gen_bn_case(rng, tier):
     spec = {"type": "bn", "bn": bn, "build_seed": rng.randrange(10 ** 6)}
     # forward
     fsize = rng.choice(sizes)
-    spec["fwd"] = {"size": fsize, "seed": rng.randrange(2 ** 31),
+    spec["fwd"] = {"size": fsize, "seed": _seed(rng),
                    "partial": gen_partial(rng, bn, min(fsize, 40)) if rng.random() < 0.35 else None}
     if spec["fwd"]["partial"]:
         spec["fwd"]["size"] = len(spec["fwd"]["partial"]["rows"])
@@ -187,7 +197,7 @@ def gen_bn_case(rng, tier):
     rsize = rng.choice([1, 2, 17, 200])
     if rsize / pe > 8000:
         rsize = 17 if 17 / pe <= 8000 else 2
-    rej = {"evidence": ev, "size": rsize, "seed": rng.randrange(2 ** 31), "p_e": pe, "partial": None}
+    rej = {"evidence": ev, "size": rsize, "seed": _seed(rng), "p_e": pe, "partial": None}
     if ev and rng.random() < 0.2:
         part = gen_partial(rng, bn, min(rsize, 30), exclude=list(ev))
         if part:
@@ -201,16 +211,16 @@ def gen_bn_case(rng, tier):
     spec["rej"] = rej
     # likelihood weighting
     spec["lw"] = {"evidence": pick_evidence(rng, nodes, J, card, 3, 1e-9), "size": rng.choice(sizes),
-                  "seed": rng.randrange(2 ** 31)}
+                  "seed": _seed(rng)}
     # Gibbs
     pos = [idx for idx in itertools.product(*[range(card[v]) for v in nodes]) if J[idx] > 0]
     start = rng.choice(pos)
     spec["gibbs"] = {"start": dict(zip(nodes, start)), "size": rng.choice([1, 2, 17, 60]),
-                     "seed": rng.randrange(2 ** 31), "random_start": bool(np.all(np.asarray(J) > 0))}
+                     "seed": _seed(rng), "random_start": bool(np.all(np.asarray(J) > 0))}
     # simulate variants
     spec["sim"] = [gen_sim_variant(rng, bn, nodes, J, tier) for _ in range(2)]
     # statistical guard
-    spec["stat"] = {"seed": rng.randrange(2 ** 31)} if rng.random() < 0.25 else None
+    spec["stat"] = {"seed": _seed(rng)} if rng.random() < 0.25 else None
     return spec
 
 
@@ -228,4 +238,4 @@ def gen_mn_case(rng, tier):
     start = rng.choice(pos)
     return {"type": "mn", "mn": mn, "build_seed": rng.randrange(10 ** 6),
             "gibbs": {"start": dict(zip(nodes, start)), "size": rng.choice([1, 2, 17, 60]),
-                      "seed": rng.randrange(2 ** 31)}}
+                      "seed": _seed(rng)}}
